@@ -218,7 +218,7 @@ func mValue(r *Rng, zctx *zed.Context, depth int) tv {
 func c02Model(o Opts, rng *Rng, res *Result, zctx *zed.Context, sb *strings.Builder) error {
 	n := 350
 	if o.Tier == "thorough" {
-		n = 2500
+		n = 4000
 	}
 	type pcfg struct {
 		coq string
@@ -336,9 +336,6 @@ func c02Model(o Opts, rng *Rng, res *Result, zctx *zed.Context, sb *strings.Buil
 		`\ud800`, `\udc00`, `\ud83dxxxxxx`, `\ude00\ud83d`, `\ud800A`, `\u12`, `\u`, `\uzzzz`, `\u 041`, "\t", "\x01", "\n", "\r", "\x7f", "'", "/", "u", "0041", `\ud83dA`, `􏿿`, `퟿`, ``, `￿`, `\U0041`}
 	addScan := func(body, trail string) {
 		text := `"` + body + trail
-		if surrogateThenNonASCII(text) {
-			return // outside the code-point model (byte offsets inside a multi-byte character)
-		}
 		var dec string
 		err := guarded(func() error {
 			ast, err := zson.NewParser(strings.NewReader(text)).ParseValue()
@@ -401,24 +398,4 @@ func c02Model(o Opts, rng *Rng, res *Result, zctx *zed.Context, sb *strings.Buil
 	WriteCoqList(sb, "name_cases", "(str * str)", nameCases)
 	sb.WriteString("Definition M := Eval vm_compute in (zson_mismatches zson_cases, quote_mismatches quote_cases, scan_mismatches scan_cases, name_mismatches name_cases).\nPrint M.\n")
 	return nil
-}
-
-var surrogateEsc = regexp.MustCompile(`\\u[dD][89a-fA-F][0-9a-fA-F]{2}`)
-
-// surrogateThenNonASCII: a \uD8xx..\uDFxx escape followed within six
-// characters by a non-ASCII character.
-func surrogateThenNonASCII(text string) bool {
-	for _, loc := range surrogateEsc.FindAllStringIndex(text, -1) {
-		n := 0
-		for _, r := range text[loc[1]:] {
-			if n >= 6 {
-				break
-			}
-			if r >= 128 {
-				return true
-			}
-			n++
-		}
-	}
-	return false
 }
